@@ -160,6 +160,15 @@ def r_ovf(F, R, cat=None):
                 # length is larger (a repeated tail), the multiplication itself must sit under
                 # position < count.
                 for (s, p) in ((a, c), (c, a)):
+                    if p[0] == "call" and p[1][1] == "min" and len(p[2]) == 2 and s[0] == "place" and s[2] == ("arg", 1):
+                        # stride * min(position, count - 1): never beyond the last accepted element
+                        cnt_ = counts.get(tuple(s[3][:-1]))
+                        if cnt_ is not None and any(
+                                x[0] == "bin" and x[1] == "Sub" and x[3] == ("const", "1") and x[2][0] == "place" and
+                                tuple(x[2][3]) == cnt_ for x in p[2]):
+                            ok = True
+                            why = "stride * min(.., count - 1): bounded by the last accepted element"
+                            continue
                     if p == ("place", b.key, ("arg", 2), ()) and s[0] == "place" and s[2] == ("arg", 1):
                         variant = tuple(s[3][:-1])
                         cnt = counts.get(variant)
@@ -393,12 +402,27 @@ def r_concat(F, R, cat=None):
                 continue
             R.saw(b)
             forms = [norm_len(tree(c, o)) for o in c.org.local(0)]
-            ok = len(forms) == 1
-            if ok:
-                d = nlin(forms[0])
+            ok = bool(forms)
+            n_full = 0
+            for (o, fm) in zip(c.org.local(0), forms):
+                d = nlin(fm)
                 ks = [k for k in d if k != 1]
-                ok = len(ks) == 2 and all(d[k] == 1 for k in ks) and \
+                full = len(ks) == 2 and all(d[k] == 1 for k in ks) and \
                     {which_field(k, b) for k in ks} == {first, second} and d.get(1, 0) == 0
+                if full:
+                    n_full += 1
+                    continue
+                # fast path: one level's length, returned where the other level is known to be empty
+                part = len(ks) == 1 and d[ks[0]] == 1 and d.get(1, 0) == 0 and which_field(ks[0], b) in (first, second)
+                if part and o[0][0] == "call":
+                    other = second if which_field(ks[0], b) == first else first
+                    known_empty = any(
+                        f[0] == "truthy" and f[2] is True and f[1][0] == "call" and f[1][1][1] == "is_empty" and
+                        f[1][2] and f[1][2][0] == field_place(b, other) for f in facts_at(c, o[0][1]))
+                    if known_empty:
+                        continue
+                ok = False
+            ok = ok and n_full >= 1
             R.check("R-CONCAT", b.label(), ok, construct="len = %s.len() + %s.len()" % (first, second),
                     where=b.where(), detail="len() returns %s" % [show(f) for f in forms])
         # is_empty = both empty
@@ -729,6 +753,31 @@ def r_stride_iter(F, R, cat=None):
                 ok = False
         R.check("R-ITER", b.label(), ok, construct="self.index += 1 after the read",
                 where=b.where(), detail="%d increments, other stores to the cursor: %s" % (len(incs), others))
+    # size_hint, where overridden: what is left is len - cursor (never the total length)
+    for b in [x for x in F.bodies.values() if x.self_adt == "impls::index::StrideIter" and x.name == "size_hint"
+              and x.trait == "Iterator"]:
+        R.saw(b)
+        c = Ctx(b)
+        idx_place = ("place", b.key, ("arg", 1), ("f:index",))
+        str_place = ("place", b.key, ("arg", 1), ("f:strided",))
+        lows = []
+        for o in c.org.local(0):
+            t = nobb_(tree(c, o))
+            if t[0] == "agg" and t[1] == "tuple" and t[2]:
+                lows.append(t[2][0])
+        if not lows:
+            R.undecided_site("R-ITER", b.label(), "size_hint result not recognised")
+        for low in lows:
+            d = lin(low)
+            len_terms = [k for k in d if isinstance(k, tuple) and k[0] == "call" and k[1] == ("Stride", "len")
+                         and k[2] and k[2][0] == str_place]
+            if not len_terms:
+                R.undecided_site("R-ITER", b.label(), "size_hint lower bound %s not recognised" % show(low)[:60])
+                continue
+            ok = d.get(len_terms[0]) == 1 and d.get(idx_place) == -1 and len(d) == 2
+            R.check("R-ITER", b.label(), ok, construct="size_hint = len - cursor", where=b.where(),
+                    detail="lower bound %s" % show(low)[:100] + ("" if ok else
+                           ": the remaining length is the stride's length minus the cursor"))
     ib = [b for b in F.bodies.values() if b.self_adt == STRIDE and b.name == "iter" and b.trait is None]
     for b in ib:
         R.saw(b)
